@@ -14,7 +14,16 @@ PRE = ("From Coq Require Import List NArith.\nFrom Echo Require Import Model.Sch
        "Definition run (fps : list footprint) (cs : list (N * N * N)) :=\n"
        "  let order := drain_handles cs in\n"
        "  let l := map (fun h => nth (N.to_nat h) fps dflt) order in\n"
-       "  (order, receipt l, run_legacy l).\n")
+       "  (order, receipt l, run_legacy l).\n"
+       "(* batches above the threshold: drain_thin = small_sort by theorem drain_is_sorted_permutation (Props/C03.v);\n"
+       "   evaluating 20 insertion-sort passes over 320-bit keys in vm_compute is too slow, so the sorted order is computed\n"
+       "   with the comparison sort the theorem proves equal. *)\n"
+       "Definition run_big (fps : list footprint) (cs : list (N * N * N)) :=\n"
+       "  let order := map t_handle (small_sort (enqueue_all cs)) in\n"
+       "  let l := map (fun h => nth (N.to_nat h) fps dflt) order in\n"
+       "  (order, receipt l, run_legacy l).\n"
+       "(* small batches: additionally execute the radix model itself *)\n"
+       "Definition run_radix (cs : list (N * N * N)) := map t_handle (radix_sort (enqueue_all cs)).\n")
 
 SETS = ["nr", "nw", "er", "ew", "ar", "aw", "bi", "bo"]
 
@@ -95,7 +104,7 @@ def gen_random(rng, tier):
     return case_line(cands)
 
 
-def to_term(line):
+def to_term(line, radix=False):
     cands = parse_case(line)
     def kl(l):
         return "[" + ";".join(f"({w},{k})" for w, k in l) + "]"
@@ -103,11 +112,20 @@ def to_term(line):
                    "b_in := %s; b_out := %s; factor_mask := %d |}" % tuple([kl(fp[s]) for s in SETS] + [fp["mask"]])
                    for _, _, fp in cands)
     cs = ";".join(f"({vf.coq_hexN('%x' % sc)},{cr},{i})" for i, (sc, cr, _) in enumerate(cands))
+    if len(cands) > 1024:
+        return f"run_big [{fps}] [{cs}]"
+    if radix:
+        return f"(run [{fps}] [{cs}], run_radix [{cs}])"
     return f"run [{fps}] [{cs}]"
 
 
 def render_model(v):
+    radix = None
+    if len(v) == 4:      # Coq prints ((a, b, c), d) as (a, b, c, d)
+        v, radix = v[:3], v[3]
     order, rc, legacy = v
+    if radix is not None and list(radix) != list(order):
+        return "MODEL-RADIX-DISAGREES-WITH-MODEL-SMALL-SORT"
     o = ",".join(str(h) for h in order)
     if isinstance(rc, tuple) and rc[0] == "app" and rc[1] == "Some":
         ent = rc[2][0]
@@ -188,7 +206,7 @@ def run(tier, seed, replay=None):
         impl_lines.append(head.split(" oracle=")[0])
         oracles.append(head.split(" oracle=")[1].split()[0])
     try:
-        vals = vf.coq_eval("c03", PRE, [to_term(c) for c in model_cases], timeout=1500)
+        vals = vf.coq_eval("c03", PRE, [to_term(c, radix=(i % 5 == 0 and c.count(";") <= 12)) for i, c in enumerate(model_cases)], timeout=1500)
         model = [render_model(v) for v in vals]
     except vf.Broken as e:
         r.is_broken("model-eval", e)
